@@ -552,7 +552,10 @@ pub fn c22_case(case: &RewardCase) -> CaseResult {
         None => tx.gas_price,
     };
     let reward = eff.saturating_sub(base).saturating_mul(r::U256::from(gas_used));
-    if !sender_is_cb {
+    // the reward credit saturates at 2^256-1 (no defined overflow behaviour): only compare when
+    // the enabled run could credit the full reward
+    let credit_fits = bal(&pre, &block.coinbase).checked_add(reward).is_some() && bal(&post_on, &block.coinbase) != r::U256::MAX;
+    if !sender_is_cb && credit_fits {
         let got = bal(&post_off, &block.coinbase);
         let want = bal(&post_on, &block.coinbase).saturating_sub(reward);
         let step_sig = if rebuilds.is_empty() { "no-reconfiguration".to_string() } else { rebuilds.join("+") };
